@@ -17,16 +17,24 @@
 (* the group.  The harness maps every concrete byte offset of a real log   *)
 (* to its cell and compares the real outcome with the one computed here.   *)
 (*                                                                         *)
-(* Writer (one action per call of the code):                               *)
+(* Writer (one action per call of the code that takes the group's mutex):  *)
 (*   Open    = NewWAL + Start  (OnStart writes EndHeight(0) into an empty  *)
 (*             head file)                                                  *)
-(*   Write   = baseWAL.Write: one whole record into Group.headBuf; bufio   *)
-(*             may run full inside the record and write everything up to   *)
-(*             that point to the head file (parameter s = cells of the new *)
+(*   GroupWrite = ONE call of Group.Write (mutex; bufio.Write on headBuf). *)
+(*             baseWAL.Write -> WALEncoder.Encode hands a record to the    *)
+(*             group in one or more such calls (EncodeCuts: the cells      *)
+(*             after which Encode ends one call and starts the next); the  *)
+(*             group's mutex is held per CALL, so the unit that is atomic  *)
+(*             with respect to a rotation is the call, not the record.     *)
+(*             bufio may run full inside the call and write everything up  *)
+(*             to that point to the head file (parameter s = cells of the  *)
 (*             record that reach the file)                                 *)
 (*   Flush   = Group.Flush  (WriteSync = Write ; Flush)                    *)
-(*   Rotate  = Group.RotateFile, what the group's ticker does when the     *)
-(*             head exceeds its size limit                                 *)
+(*   Rotate  = Group.RotateFile, what the group's ticker goroutine         *)
+(*             (processTicks -> checkHeadSizeLimit) does when the head     *)
+(*             exceeds its size limit: enabled between ANY two calls of    *)
+(*             the writer, also between two Group.Write calls of one       *)
+(*             Encode                                                      *)
 (*   Close   = baseWAL.Stop                                                *)
 (* Damage: none, Cut(c) (the log ends after c cells) or Flip(c) (one byte  *)
 (* of cell c altered; for a length cell the effect on the length value is  *)
@@ -34,14 +42,22 @@
 (* Reader: Decode (one call of WALDecoder.Decode by the strict reader that *)
 (* stops at the first error) and Search (one call of SearchForEndHeight).  *)
 (*                                                                         *)
-(* Two deviations of the code at the pinned commit are switches:           *)
+(* Three facts about the code are parameters the harness probes on it; the *)
+(* first two were deviations of the code at the pinned commit:             *)
 (*   FlushOnRotate = FALSE: RotateFile renames the head without flushing   *)
 (*       headBuf, so the tail of a record bufio has split ends up at the   *)
 (*       start of the next file;                                           *)
 (*   TornTailIsEOF = FALSE: a record cut short by the end of the group     *)
 (*       makes SearchForEndHeight return an error before it has looked at  *)
 (*       the older files.                                                  *)
-(* With both TRUE ("as designed") every invariant below holds.             *)
+(*   EncodeCuts = {}: Encode assembles crc|len|payload and hands it to the *)
+(*       group in ONE Group.Write (as found).  {6} = the header in one     *)
+(*       call and the payload in the next: a rotation between the two      *)
+(*       ends a file after the header, the next file starts with a         *)
+(*       headless payload, and SearchForEndHeight - which starts a decoder *)
+(*       at the beginning of every file - misses every marker in that file *)
+(*       and in all older ones although nothing is damaged.                *)
+(* With TRUE, TRUE, {} ("as designed") every invariant below holds.        *)
 (***************************************************************************)
 EXTENDS Integers, Sequences, FiniteSets, TLC, Json
 
@@ -50,7 +66,8 @@ CONSTANTS NRecs,          \* every log holds exactly NRecs records (shorter logs
           SplitCells,     \* subset of 1..8: where the head buffer may run full inside a record
           MaxRestarts,    \* Close + Open again
           FlushOnRotate,  \* see above
-          TornTailIsEOF   \* see above
+          TornTailIsEOF,  \* see above
+          EncodeCuts      \* subset of 1..8, see above: c \in EncodeCuts = Encode ends a Group.Write call after cell c of the record
 
 C    == 9      \* cells per record
 Lost == -1     \* reader position after a record whose length field was wrong: somewhere inside a record
@@ -62,11 +79,14 @@ VARIABLES phase,     \* "new" | "open" | "closed" | "damaged"
           restarts,
           dmg,       \* the damage applied after the log was closed
           rd,        \* the strict reader: [pos, out, done]
+          pend,      \* 0, or c \in EncodeCuts: the writer is inside WALEncoder.Encode between two Group.Write calls,
+                     \* the first c cells of the last record of recs have been handed to the group
           hist,      \* writer actions so far (output only, hidden by the VIEW)
           last       \* label of the last action (output only, hidden by the VIEW)
-vars == <<phase, recs, disk, bounds, restarts, dmg, rd, hist, last>>
+vars == <<phase, recs, disk, bounds, restarts, dmg, rd, pend, hist, last>>
 
 Total     == C * Len(recs)
+Handed    == IF pend = 0 THEN Total ELSE Total - C + pend   \* cells Group.Write has been given so far (in the files or in headBuf)
 HeadStart == IF bounds = <<>> THEN 0 ELSE bounds[Len(bounds)]
 HeadSize  == disk - HeadStart              \* Group.Head.Size(): what is in the file, not in headBuf
 Heights   == {recs[i] : i \in 1..Len(recs)} \ {-1}
@@ -76,12 +96,14 @@ NoDmg == [k |-> "-", c |-> 0, e |-> "-", j |-> 0]
 NoRd  == [pos |-> 0, out |-> <<>>, done |-> FALSE]
 
 Init == /\ phase = "new" /\ recs = <<>> /\ disk = 0 /\ bounds = <<>> /\ restarts = 0
-        /\ dmg = NoDmg /\ rd = NoRd /\ hist = <<>> /\ last = [op |-> "init"]
+        /\ dmg = NoDmg /\ rd = NoRd /\ pend = 0 /\ hist = <<>> /\ last = [op |-> "init"]
 
 (* ------------------------------ the writer ------------------------------ *)
 Log(a) == /\ hist' = Append(hist, a) /\ last' = a
 
 \* NewWAL + Start.  baseWAL.OnStart: `size, _ := wal.group.Head.Size(); if size == 0 { wal.WriteSync(EndHeightMessage{0}) }`
+\* (one step whatever EncodeCuts: the head file is empty and group.Start(), which starts the goroutine that
+\* rotates, is called after the WriteSync, so nothing can come between the Group.Write calls of this record)
 Open ==
   /\ phase \in {"new", "closed"}
   /\ phase = "closed" => restarts < MaxRestarts
@@ -93,48 +115,65 @@ Open ==
        ELSE UNCHANGED <<recs, disk>>
   /\ phase' = "open"
   /\ Log([op |-> "open", s |-> 0, h |-> IF HeadSize = 0 THEN 0 ELSE -1])   \* h = 0: EndHeight(0) was written
-  /\ UNCHANGED <<bounds, dmg, rd>>
+  /\ UNCHANGED <<bounds, dmg, rd, pend>>
 
-\* baseWAL.Write(msg): WALEncoder.Encode hands ONE byte slice (crc|len|payload) to Group.Write,
-\* i.e. to bufio.Writer.Write on headBuf.  s = 0: it fits, nothing reaches the file.
-\* s > 0: the buffer runs full after s cells of this record; bufio writes the buffered bytes
-\* (everything before + these s cells) to the head file and keeps the rest.  bufio takes that
-\* path only when something is already buffered; the harness realises it by sizing the
-\* previous record (a block part, still wholly in the buffer) accordingly.
-Write(h, s) ==
-  /\ phase = "open" /\ Len(recs) < NRecs
-  /\ h = -1 \/ h = NextH
-  /\ recs' = Append(recs, h)
-  /\ \/ s = 0 /\ UNCHANGED disk
-     \/ /\ s \in SplitCells
-        /\ Len(recs) > 0 /\ recs[Len(recs)] = -1 /\ disk <= Total - C
-        /\ disk' = Total + s
-  /\ Log([op |-> "write", s |-> s, h |-> h])
+\* One call of Group.Write (`g.mtx.Lock(); defer g.mtx.Unlock(); return g.headBuf.Write(p)`) made by
+\* WALEncoder.Encode on behalf of baseWAL.Write(msg).  pend = 0: the first call of a new record h;
+\* pend = a > 0: the next call of the Encode in progress.  The call hands the cells a+1 .. b of the
+\* record to bufio, b = the next cut of the encoder after a (the end of the record when there is none):
+\* with EncodeCuts = {} ONE byte slice crc|len|payload, a = 0 and b = 9.
+\* s = 0: the bytes fit, nothing reaches the file.
+\* s > 0: the buffer runs full after s cells of this record (a <= s < b; s = a: it was exactly full
+\* when the call began); bufio writes the buffered bytes (everything before + these s cells) to the
+\* head file and keeps the rest.  bufio takes that path only when something is already buffered; the
+\* harness realises it by sizing the previous record (a block part, still wholly in the buffer)
+\* accordingly.
+ChunkEnd(a) == LET later == {c \in EncodeCuts : c > a}
+               IN  IF later = {} THEN C ELSE CHOOSE c \in later : \A d \in later : c <= d
+GroupWrite(h, s) ==
+  /\ phase = "open"
+  /\ IF pend = 0
+       THEN /\ Len(recs) < NRecs
+            /\ h = -1 \/ h = NextH
+            /\ recs' = Append(recs, h)
+       ELSE /\ h = recs[Len(recs)]
+            /\ UNCHANGED recs
+  /\ LET n     == IF pend = 0 THEN Len(recs) + 1 ELSE Len(recs)    \* the record this call belongs to
+         start == C * (n - 1)
+         b     == ChunkEnd(pend)
+     IN  /\ pend' = IF b = C THEN 0 ELSE b
+         /\ \/ s = 0 /\ UNCHANGED disk
+            \/ /\ s \in SplitCells /\ pend <= s /\ s < b
+               /\ n > 1 /\ recs[n - 1] = -1 /\ disk <= start - C
+               /\ disk' = start + s
+  /\ Log([op |-> IF pend = 0 THEN "write" ELSE "more", s |-> s, h |-> h])
   /\ UNCHANGED <<phase, bounds, restarts, dmg, rd>>
 
 \* Group.Flush (second half of baseWAL.WriteSync)
 Flush ==
-  /\ phase = "open" /\ disk < Total
+  /\ phase = "open" /\ pend = 0 /\ disk < Total      \* (the writer's own goroutine: not inside an Encode)
   /\ disk' = Total
   /\ Log([op |-> "flush", s |-> 0, h |-> 0])
-  /\ UNCHANGED <<phase, recs, bounds, restarts, dmg, rd>>
+  /\ UNCHANGED <<phase, recs, bounds, restarts, dmg, rd, pend>>
 
 \* Group.RotateFile: close the head, rename it to <head>.NNN, maxIndex++.  The ticker calls it
-\* when the head FILE has reached the size limit, so the head file is not empty.
+\* when the head FILE has reached the size limit, so the head file is not empty.  It runs on the
+\* group's own goroutine and only needs the group's mutex: pend is not looked at (s = pend in the
+\* label: 0 = at a record boundary, c = between two Group.Write calls, after cell c of the record).
 Rotate ==
   /\ phase = "open" /\ HeadSize > 0 /\ Len(bounds) < MaxFiles - 1
   /\ IF FlushOnRotate
-       THEN /\ disk' = Total /\ bounds' = Append(bounds, Total)
+       THEN /\ disk' = Handed /\ bounds' = Append(bounds, Handed)
        ELSE /\ bounds' = Append(bounds, disk) /\ UNCHANGED disk
-  /\ Log([op |-> "rotate", s |-> 0, h |-> 0])
-  /\ UNCHANGED <<phase, recs, restarts, dmg, rd>>
+  /\ Log([op |-> "rotate", s |-> pend, h |-> 0])
+  /\ UNCHANGED <<phase, recs, restarts, dmg, rd, pend>>
 
 \* baseWAL.Stop: group.Stop (flush) + group.Close
 Close ==
-  /\ phase = "open"
+  /\ phase = "open" /\ pend = 0
   /\ disk' = Total /\ phase' = "closed"
   /\ Log([op |-> "close", s |-> 0, h |-> 0])
-  /\ UNCHANGED <<recs, bounds, restarts, dmg, rd>>
+  /\ UNCHANGED <<recs, bounds, restarts, dmg, rd, pend>>
 
 (* ------------------------------ the damage ------------------------------ *)
 RecOf(c)  == ((c - 1) \div C) + 1
@@ -168,7 +207,7 @@ Damage(d) ==
   /\ d \in Damages
   /\ dmg' = d /\ phase' = "damaged" /\ rd' = NoRd
   /\ last' = [op |-> "damage", s |-> 0, h |-> 0]
-  /\ UNCHANGED <<recs, disk, bounds, restarts, hist>>
+  /\ UNCHANGED <<recs, disk, bounds, restarts, pend, hist>>
 
 (* ------------------------------ the reader ------------------------------ *)
 N      == IF dmg.k = "cut" THEN dmg.c ELSE Total      \* cells on disk
@@ -223,7 +262,7 @@ Decode ==
   /\ LET d == DecodeAt(rd.pos) IN
        /\ rd' = [pos |-> d.next, out |-> Append(rd.out, <<d.k, d.r>>), done |-> d.k # "msg"]
        /\ last' = [op |-> "decode", s |-> 0, h |-> 0]
-  /\ UNCHANGED <<phase, recs, disk, bounds, restarts, dmg, hist>>
+  /\ UNCHANGED <<phase, recs, disk, bounds, restarts, dmg, pend, hist>>
 
 \* everything the strict reader yields when started at the record start p
 DecodeAll(p0) ==
@@ -282,10 +321,10 @@ Search(h, ign) ==
   /\ phase = "damaged" /\ rd.out = <<>>
   /\ last' = [op |-> "search", s |-> 0, h |-> h]   \* the result is {SearchRes(h, ign, f) : f \in FatesHere}: a
                                                     \* query, it changes nothing; exported with Obs below
-  /\ UNCHANGED <<phase, recs, disk, bounds, restarts, dmg, rd, hist>>
+  /\ UNCHANGED <<phase, recs, disk, bounds, restarts, dmg, rd, pend, hist>>
 
 Next == \/ Open \/ Flush \/ Rotate \/ Close
-        \/ \E h \in {-1} \cup 0..NRecs, s \in {0} \cup SplitCells : Write(h, s)
+        \/ \E h \in {-1} \cup 0..NRecs, s \in {0} \cup SplitCells : GroupWrite(h, s)
         \/ \E d \in Damages : Damage(d)
         \/ Decode
         \/ \E h \in SearchHeights, ign \in BOOLEAN : Search(h, ign)
@@ -295,7 +334,9 @@ Spec == Init /\ [][Next]_vars
 (* ------------------------- what TLC checks ------------------------------ *)
 TypeOK == /\ phase \in {"new", "open", "closed", "damaged"}
           /\ recs \in Seq({-1} \cup 0..NRecs) /\ Len(recs) <= NRecs
-          /\ disk \in 0..Total
+          /\ pend \in {0} \cup EncodeCuts /\ EncodeCuts \subseteq 1..(C - 1)
+          /\ pend # 0 => phase = "open" /\ Len(recs) > 0
+          /\ disk \in 0..Handed
           /\ Len(bounds) <= MaxFiles - 1
           /\ \A i \in 1..Len(bounds) : bounds[i] <= disk /\ (i > 1 => bounds[i - 1] <= bounds[i])
 
@@ -361,5 +402,5 @@ Export ==
     THEN PrintT(ToJson([t |-> "dmg", recs |-> recs, bounds |-> bounds, dmg |-> dmg, obs |-> Obs]))
     ELSE TRUE
 
-View == <<phase, recs, disk, bounds, restarts, dmg, rd>>
+View == <<phase, recs, disk, bounds, restarts, dmg, rd, pend>>
 =============================================================================
